@@ -134,7 +134,9 @@ Case(n_) ==
         off_ == Pick(<< <<QI(0), QI(0), Q(1, 10)>>, <<Q(1, 10), Q(-1, 10), QI(0)>> >>, m_)
         sep_ == Pick(<<QI(8), QI(10), QI(7)>>, m_)
         nat_ == IF kind_ = "mol" THEN Pick(<<2, 2, 3>>, m_ \div 3)
-                ELSE IF kind_ \in {"robust_exact", "robust_smooth", "robust_core"} /\ m_ % 4 = 3 THEN 2 ELSE 1
+                ELSE IF kind_ \in {"robust_exact", "robust_smooth", "robust_core"} /\ m_ % 4 = 3 THEN 2
+                \* Laplacian of a function sampled on a molecular grid: sum over atoms of the Laplacians of w_A f
+                ELSE IF kind_ = "lap" /\ m_ % 3 = 2 THEN Pick(<<2, 3>>, m_ \div 3) ELSE 1
         \* molecules: at least one Gaussian per atom (term k sits on atom ((k-1) mod nat) + 1)
         cs_ == IF kind_ = "mol" THEN (IF nat_ = 3 THEN CoefSets[3] ELSE Pick(<<CoefSets[2], CoefSets[3]>>, m_))
                ELSE Pick(CoefSets, m_ \div 2)
